@@ -32,6 +32,13 @@ NOT_FUNCS = {"np.bitwise_not", "numpy.bitwise_not", "np.logical_not",
 
 
 MUTANTS = [
+    ("pixel block stored over the previous row's slots", "AegeanTools/MIMAS.py",
+     "        indexes[i*j:(i+1)*j] = idx", "        indexes[i*j:(i-1)*j] = idx",
+     "C10-R7"),
+    ("position list sized with the column count twice", "AegeanTools/MIMAS.py",
+     "    indexes = np.empty((data.shape[0]*data.shape[1], 2), dtype=int)",
+     "    indexes = np.empty((data.shape[1]*data.shape[1], 2), dtype=int)",
+     "C10-R7"),
     ("coordinate columns converted to plain arrays before the membership test",
      "AegeanTools/MIMAS.py",
      "    inside = region.sky_within(table[racol], table[deccol], degin=True)",
@@ -321,6 +328,34 @@ def flatten_layouts(fnode, data):
                                         continue
                                     env[t.value.id] = RC if (a, b) == (0, 1) \
                                         else CR if (a, b) == (1, 0) else BAD
+                                    # the block is exactly one line long:
+                                    # upper - lower == J
+                                    import sympy as _sp
+
+                                    def _lin(e_):
+                                        if isinstance(e_, ast.Constant) and \
+                                                isinstance(e_.value, int):
+                                            return _sp.Integer(e_.value)
+                                        if isinstance(e_, ast.BinOp) and \
+                                                isinstance(e_.op, (
+                                                    ast.Add, ast.Sub,
+                                                    ast.Mult)):
+                                            l_, r_ = _lin(e_.left), \
+                                                _lin(e_.right)
+                                            return l_ + r_ if isinstance(
+                                                e_.op, ast.Add) else \
+                                                l_ - r_ if isinstance(
+                                                    e_.op, ast.Sub) \
+                                                else l_ * r_
+                                        return _sp.Symbol("v_" + "".join(
+                                            ch if ch.isalnum() else "_"
+                                            for ch in norm(e_)))
+                                    d_ = _sp.expand(
+                                        _lin(t.slice.upper) - _lin(lo) -
+                                        _lin(jv)) if t.slice.upper is not \
+                                        None else None
+                                    if d_ != 0:
+                                        env[t.value.id] = BAD
                     elif isinstance(t, ast.Subscript):
                         pass        # element/column store keeps the order
                     else:
@@ -601,6 +636,26 @@ def run(ctx):
                   node=node)
     ctx.floor("C10-R7", n7, 1, "reshape(data.shape) sites with a derived "
               "pixel order")
+    # the list has one entry per pixel: arrays allocated for it hold
+    # shape[0] * shape[1] rows
+    for st in walk_no_nested(mp.node):
+        if isinstance(st, ast.Assign) and isinstance(st.value, ast.Call) and \
+                norm(st.value.func).split(".")[-1] in ("empty", "zeros",
+                                                       "ones", "full") and \
+                st.value.args and isinstance(st.value.args[0], ast.Tuple) and \
+                len(st.value.args[0].elts) == 2 and \
+                isinstance(st.value.args[0].elts[1], ast.Constant) and \
+                st.value.args[0].elts[1].value == 2:
+            n_ = st.value.args[0].elts[0]
+            okn = isinstance(n_, ast.BinOp) and isinstance(n_.op, ast.Mult) \
+                and {norm(n_.left), norm(n_.right)} == {
+                    data + ".shape[0]", data + ".shape[1]"} or \
+                norm(n_) == data + ".size"
+            ctx.check("C10-R7", mp, "one entry per pixel: " + norm(st, 70),
+                      okn, "the position list must hold %s.shape[0] * "
+                      "%s.shape[1] entries; found %s (uninitialised rows of "
+                      "np.empty are tested as positions, or pixels are "
+                      "missing)" % (data, data, norm(n_)), node=st)
     # ---------------------------------------------------------------- R4
     ctx.rule("C10-R4", "every plane of a cube is masked by the same 2-d "
              "routine with loop-invariant wcs, region and negate")
